@@ -92,6 +92,10 @@ func isMethodCall(e ast.Expr, names ...string) (*ast.SelectorExpr, bool) {
 	return nil, false
 }
 
+func addrOf(x ast.Expr) ast.Expr {
+	return &ast.UnaryExpr{Op: token.AND, X: &ast.ParenExpr{X: x}}
+}
+
 func sel(x ast.Expr, name string) ast.Expr { return &ast.SelectorExpr{X: x, Sel: ast.NewIdent(name)} }
 
 func exprString(e ast.Expr) string {
@@ -191,9 +195,9 @@ func processStmt(s ast.Stmt) ast.Stmt {
 			if sx.Sel.Name == "RLock" {
 				try = "TryRLock"
 			}
-			t.X = call("Lock", sel(sx.X, try), sel(sx.X, sx.Sel.Name), siteID(t.Pos()))
+			t.X = call("Lock", addrOf(sx.X), sel(sx.X, try), sel(sx.X, sx.Sel.Name), siteID(t.Pos()))
 		} else if sx, ok := isMethodCall(t.X, "Unlock", "RUnlock"); ok && len(ce.Args) == 0 {
-			t.X = call("Unlock", sel(sx.X, sx.Sel.Name))
+			t.X = call("Unlock", addrOf(sx.X), sel(sx.X, sx.Sel.Name))
 		} else if sx, ok := isMethodCall(t.X, "Do"); ok && len(ce.Args) == 1 && isOnceRecv(sx.X) {
 			t.X = call("OnceDo", sel(sx.X, "Do"), ce.Args[0])
 		}
@@ -210,7 +214,7 @@ func processStmt(s ast.Stmt) ast.Stmt {
 	case *ast.DeferStmt:
 		rewriteFuncLits(t.Call)
 		if sx, ok := isMethodCall(t.Call, "Unlock", "RUnlock"); ok && len(t.Call.Args) == 0 {
-			t.Call = call("Unlock", sel(sx.X, sx.Sel.Name))
+			t.Call = call("Unlock", addrOf(sx.X), sel(sx.X, sx.Sel.Name))
 		}
 	case *ast.GoStmt:
 		rewriteFuncLits(t.Call)
